@@ -2454,6 +2454,22 @@ def _move_after_scope(
     return additions, removals
 
 
+def _may_move_before_tests(nodes: Sequence[ast.AST], statement: ast.AST) -> bool:
+    """Code that all branches start with may only move in front of the tests if it does not
+    change what they read."""
+    tests = [condition.test for scope in nodes for condition in core.walk(scope, ast.If)]
+    modified = {name.id for name in core.walk(statement, ast.Name(ctx=(ast.Store, ast.Del)))}
+    for child in core.walk(statement, (ast.Attribute, ast.Subscript)):
+        # Method calls, and assignments to attributes and items
+        modified.update(name.id for name in core.walk(child.value, ast.Name))
+    for child in core.walk(statement, (ast.FunctionDef, ast.AsyncFunctionDef, ast.ClassDef)):
+        modified.add(child.name)
+
+    read = {name.id for test in tests for name in core.walk(test, ast.Name)}
+
+    return not modified & read
+
+
 @processing.fix
 def breakout_common_code_in_ifs(source: str) -> str:
     root = core.parse(source)
@@ -2467,7 +2483,9 @@ def breakout_common_code_in_ifs(source: str) -> str:
 
         removals = set()
         additions = set()
-        has_namedexpr = any(core.walk(node.test, ast.NamedExpr))
+        has_namedexpr = any(core.walk(node.test, ast.NamedExpr)) or not _may_move_before_tests(
+            (node, orelse[0]), body[0]
+        )
         start_branches = [body[0], orelse[0]]
         end_branches = [body[-1], orelse[-1]]
 
@@ -2513,7 +2531,9 @@ def breakout_common_code_in_ifs(source: str) -> str:
 
         removals = set()
         additions = set()
-        has_namedexpr = any(core.walk(node.test, ast.NamedExpr))
+        has_namedexpr = any(core.walk(node.test, ast.NamedExpr)) or not _may_move_before_tests(
+            (node, orelse[0]), body[0]
+        )
         start_branches = [body[0], orelse[0]]
         if not has_namedexpr and _is_same_code(*start_branches):
             additions, removals = _move_before_scope(node, start_branches)
